@@ -389,7 +389,19 @@ theorem Q_gt_one_int : 1 < (Q : ℤ) := by exact_mod_cast (lt_trans (by norm_num
 theorem is_extended_zero_def (X Y Z T : ℤ) : spake_is_extended_zero X Y Z T ↔
     (X = 0 ∧ Y % (Q:ℤ) = Z % (Q:ℤ) ∧ Y % (Q:ℤ) ≠ 0) := by
   simp only [spake_is_extended_zero] <;>
-    (generalize Y % (Q:ℤ) = a; generalize Z % (Q:ℤ) = b; tauto)
+    (generalize Y % (Q:ℤ) = a; generalize Z % (Q:ℤ) = b
+     constructor
+     · rintro h
+       have hx : X = 0 := by tauto
+       have hab : a = b := by tauto
+       have hne : a ≠ 0 ∨ b ≠ 0 := by tauto
+       refine ⟨hx, hab, ?_⟩
+       rcases hne with h1 | h1
+       · exact h1
+       · rw [hab]; exact h1
+     · rintro ⟨hx, hab, hne⟩
+       have hb : b ≠ 0 := by rw [← hab]; exact hne
+       tauto)
 
 section Main
 variable [Fact (Nat.Prime Q)]
